@@ -543,3 +543,7 @@ def check(repo, rep, tier):
     # hand back a result for any three categories (shared with C12 R12.4)
     from .c12 import r_label_recovery
     r_label_recovery(repo, rep, 'R20.6')
+    # both readers hand the category text of a node to Category.parse: its tokeniser (rule of C05) is a condition of
+    # "the same categories" -- the shipped lexicon spells the comma category with a trailing blank
+    from .c05 import r_delimiters
+    r_delimiters(repo.module('depccg/cat.py'), rep, 'R20.6')
